@@ -439,8 +439,34 @@ def attach_paired(ctx, o):
             if isinstance(val, ast.Constant) and val.value is None:
                 continue
             recv = tgt.value
-            calls = [c for c in facts.calls_named(f, '_attach') if same(c.func.value, recv) and c.args and
-                     (match(f"{src(val)}._Task__wbs", c.args[0]) or match(f"{src(val)}.wbs", c.args[0]))]
+            aex = Expander(prog, f, ctx.typer, inline=False)
+
+            def owner_of_val(c):
+                """the argument of the _attach call is the owner of the stored parent - read directly, or through a local hoisted
+                before the guards (`new_wbs = parent.__wbs if parent is not None else None`): the conditional expression is
+                resolved with the path condition of the call"""
+                a = c.args[0]
+                if match(f"{src(val)}._Task__wbs", a) or match(f"{src(val)}.wbs", a):
+                    return True
+                if not isinstance(a, ast.Name):
+                    return False
+                v = aex.expand(a, cfg.node_containing(c))
+                conds = facts.node_conditions(prog, f, c, ctx.typer, expand=True)
+                hops = 0
+                while isinstance(v, ast.IfExp) and hops < 4:
+                    hops += 1
+                    pick = None
+                    tt, tq = facts.norm_cond(v.test, True)
+                    for t, q in conds:
+                        t2, q2 = facts.norm_cond(t, q)
+                        if same(t2, tt):
+                            pick = v.body if q2 == tq else v.orelse
+                            break
+                    if pick is None:
+                        return False
+                    v = pick
+                return bool(match(f"{src(val)}._Task__wbs", v) or match(f"{src(val)}.wbs", v))
+            calls = [c for c in facts.calls_named(f, '_attach') if same(c.func.value, recv) and c.args and owner_of_val(c)]
             stn = cfg.node_of(st)
             ids = {cfg.node_containing(c).id for c in calls}
             seen, todo, leak = set(), list(stn.succ), False
@@ -1047,6 +1073,14 @@ def list_ops(ctx, o):
 def _transfer_perm(m, value, ex, fl):
     """`A + B` (reorder): B a copy of the whole list, A filled in one loop by `A.append(v)` paired with `B.remove(v)`:
     'perm' | ('lost', stmt) a task taken out of B is not put into A | None"""
+    hops = 0
+    while isinstance(value, ast.Name) and hops < 3:
+        # `reordered = A + B ; self._list[:] = reordered`: the sum hoisted into a local with one definition
+        hops += 1
+        ds = [d for d in fl.defs_of(value.id)]
+        if len(ds) != 1 or ds[0].kind != 'assign' or ds[0].value is None:
+            return None
+        value = ds[0].value
     if not (isinstance(value, ast.BinOp) and isinstance(value.op, ast.Add) and isinstance(value.left, ast.Name) and isinstance(value.right, ast.Name)):
         return None
     names = [value.left.id, value.right.id]
